@@ -101,18 +101,6 @@ func (server *Server) registerSugarExecutors() {
 	})
 
 	server.RegisterExexutor("GETRANGE", func(conn *Conn, cmd string, args Arguments) (*Message, error) {
-		rageValidiator := func(val int, max int) int {
-			if val < 0 {
-				val = max + val
-				if val < 0 {
-					return 0
-				}
-			}
-			if max < val {
-				val = max - 1
-			}
-			return val
-		}
 		key, err := nextKeyArgument(cmd, args)
 		if err != nil {
 			return nil, err
@@ -133,8 +121,26 @@ func (server *Server) registerSugarExecutors() {
 		if err != nil {
 			return NewNilMessage(), nil
 		}
-		start = rageValidiator(start, len(getVal))
-		end = rageValidiator(end, len(getVal))
+		// Converts negative indexes, and clamps the range to the string as Redis does.
+		strLen := len(getVal)
+		if start < 0 {
+			start = strLen + start
+		}
+		if end < 0 {
+			end = strLen + end
+		}
+		if start < 0 {
+			start = 0
+		}
+		if end < 0 {
+			end = 0
+		}
+		if strLen <= end {
+			end = strLen - 1
+		}
+		if strLen == 0 || end < start {
+			return NewBulkMessage(""), nil
+		}
 		return NewBulkMessage(getVal[start:(end + 1)]), nil
 	})
 
